@@ -83,6 +83,16 @@ def bounded_cases(seed, thorough=False):
         yield {'name': 'construction_route|model_fitted_on_integer_literals', 'ok': m1 == m2, 'detail': '' if m1 == m2 else f"{m1} != {m2}"}
     except Exception as exc:
         yield {'name': 'construction_route|model_fitted_on_integer_literals', 'ok': False, 'detail': f"{type(exc).__name__}: {exc}"[:160]}
+    # an isotherm labelled in degrees Celsius: the parse of its export and a copy built through from_isotherm have its identifier
+    cmeta = dict(meta, temperature=25.0, temperature_unit='°C')
+    for kind_, mkc in (('point', lambda: pygaps.PointIsotherm(pressure=p, loading=l, **cmeta)), ('base', lambda: pygaps.core.baseisotherm.BaseIsotherm(**cmeta))):
+        c0 = mkc()
+        ids_c = {'original': c0.iso_id, 'parsed JSON export': pgp.isotherm_from_json(c0.to_json()).iso_id}
+        if kind_ == 'point':
+            ids_c['parsed CSV export'] = pgp.isotherm_from_csv(c0.to_csv()).iso_id
+            ids_c['from_isotherm'] = pygaps.PointIsotherm.from_isotherm(c0, isotherm_data=c0.data_raw.copy(), pressure_key=c0.pressure_key, loading_key=c0.loading_key).iso_id
+        okc = len(set(ids_c.values())) == 1
+        yield {'name': f"construction_route|celsius_labelled_{kind_}_isotherm", 'ok': okc, 'detail': '' if okc else str(ids_c)}
     ints = pygaps.PointIsotherm(pressure=[1, 2, 3], loading=[1, 2, 3], **meta).iso_id
     flts = pygaps.PointIsotherm(pressure=[1., 2., 3.], loading=[1., 2., 3.], **meta).iso_id
     yield {'name': 'construction_route|integer_vs_float_literals', 'ok': ints == flts, 'detail': '' if ints == flts else f"{ints} != {flts}"}
